@@ -65,7 +65,7 @@ def main():
             files = [f for f in files if (wt / f).exists()]
             rep["test_files"] = files
             if files and not a.no_tests:
-                rt = sh(f"{PY} -m pytest -q -p no:cacheprovider --no-cov -x -n 4 {' '.join(files)}",
+                rt = sh(f"{PY} -m pytest -q -p no:cacheprovider --no-cov -x {' '.join(files)}",
                         cwd=wt, env=env, timeout=3000)
                 rep["tests_exit"] = rt.returncode
                 rep["tests_tail"] = rt.stdout.strip().splitlines()[-1:] if rt.stdout else []
